@@ -107,7 +107,7 @@ pub trait Storage {
 }
 
 pub const MAX_KS: usize = 2;
-pub const MAX_ROWS: usize = 3;
+pub const MAX_ROWS: usize = 2;
 pub const KS_NAMES: [&str; MAX_KS] = ["a", "b"];
 
 /// what storage holds: per keyspace, up to MAX_ROWS metadata rows (id, stamp, tombstone flag)
